@@ -1,4 +1,5 @@
 import CffiVerif.Proofs.Flatten
+import CffiVerif.Proofs.GenSrcIO
 
 /-!
 C32 — `verify()` module names are deterministic and input-sensitive.
@@ -146,6 +147,22 @@ theorem name_collision_only_by_crc (crc : List Nat → Nat) (tag classKey : Str)
     exact hne (evens_odds_injective kb kb' he ho)
   · left
     exact ⟨he, h1⟩
+
+/-- The same for the key *texts*: the hashed bytes are the UTF-8 encoding of the
+key (`key.encode('utf-8')`), which is injective, so two different key texts
+share a name only through a CRC32 collision. -/
+theorem name_collision_only_by_crc_text (crc : List Nat → Nat) (tag classKey : Str)
+    (k k' : Str) (kb kb' : List Nat)
+    (he : GenSrcIO.utf8Encode k = some kb) (he' : GenSrcIO.utf8Encode k' = some kb') (hne : k ≠ k')
+    (h : moduleName crc tag classKey kb = moduleName crc tag classKey kb') :
+    (evens kb ≠ evens kb' ∧ crc (evens kb) = crc (evens kb')) ∨
+    (odds kb ≠ odds kb' ∧ crc (odds kb) = crc (odds kb')) := by
+  apply name_collision_only_by_crc crc tag classKey kb kb' _ h
+  intro e
+  subst e
+  exact hne (GenSrcIO.utf8Encode_inj k k' kb he he')
+
+example : GenSrcIO.utf8Encode [51, 46, 49, 50, 0, 233] = some [51, 46, 49, 50, 0, 195, 169] := by decide
 
 -- the name printed for CRCs 0x36efdf1 / 0x1de75c16 is the one the real Verifier chose
 example : moduleName (fun l => if l.length = 2 then 0x36efdf1 else 0x1de75c16) [] [120] [1, 2, 3]
